@@ -90,8 +90,19 @@ def build_signals(sim):
 def build_sim(sc, party, network=None, reuse_evs=None, reuse_queue=None):
     nw = network if network is not None else build_network(sc["network"])
     q = build_events(sc, reuse_evs, reuse_queue)
-    sim = sut.Simulator(nw, party, q, build_start(sc["sim"]), period=sc["sim"]["period"],
+    first = party
+    if "built_with_max_recompute" in sc["sim"]:
+        # the simulator is constructed with some other scheduler (its own recompute interval) and the party is swapped in
+        # with update_scheduler() before the run: from then on only the party's interval counts
+        class _Placeholder(sut.BaseAlgorithm):
+            def schedule(self, active_sessions):
+                return {}
+        first = _Placeholder()
+        first.max_recompute = sc["sim"]["built_with_max_recompute"]
+    sim = sut.Simulator(nw, first, q, build_start(sc["sim"]), period=sc["sim"]["period"],
                         signals=build_signals(sc["sim"]),
                         store_schedule_history=sc["sim"].get("store_schedule_history", False),
                         verbose=False)
+    if first is not party:
+        sim.update_scheduler(party)
     return sim
